@@ -1,7 +1,7 @@
 (* Dispatch table of property C08: harness entry-point names -> model. *)
 From Coq Require Import List NArith ZArith String Bool.
 From Mant Require Import Prim.R Prim.Val Prim.Bytes Model.DispUtil Model.C08Text Model.C08Asn1
-  Model.Spnego Model.NtlmSsp Gen.ConstsC08.
+  Model.Spnego Model.NtlmSsp Model.SpnegoAuth Gen.ConstsC08.
 Import ListNotations.
 Open Scope string_scope.
 
@@ -29,14 +29,9 @@ Definition zeros (n : N) : list N := repeatN 0%N (N.to_nat n).
 Definition nt_len (flags ti_len : N) : N :=
   if has_flag flags c08_f_ess then (48 + ti_len)%N else 24%N.
 
-Definition process_challenge_token (tok user domain ws : list N) : R (list N) :=
-  let* resp := parse_neg_token_resp tok in
-  if (ntr_state resp =? 2)%Z then Err else
-  let* inner := extract_ntlm_token tok in
-  let* ch := parse_challenge inner in
-  let* auth := create_authenticate (ch_flags ch) (zeros 24) (zeros (nt_len (ch_flags ch) (lenN (ch_target_info ch))))
-                 user domain ws in
-  create_neg_token_init (Some auth).
+Definition process_challenge_zero (tok user domain ws : list N) : R (list N) :=
+  process_challenge_token (fun _ => zeros 24)
+    (fun ch => zeros (nt_len (ch_flags ch) (lenN (ch_target_info ch)))) tok user domain ws.
 
 Definition dispatch_C08 (f : string) (args : list val) : val :=
   match args with
@@ -60,6 +55,7 @@ Definition dispatch_C08 (f : string) (args : list val) : val :=
       else vunknown
   | [VB domain; VB ws; unicode] =>
       if f =? "ntlm.create_negotiate" then r_bytes (create_negotiate domain ws (bool_of_val unicode))
+      else if f =? "spnego.create_negotiate_token" then r_bytes (create_negotiate_token domain ws (bool_of_val unicode))
       else vunknown
   | [VN major; VN minor; VN build; VB rsv; VN rev] =>
       if f =? "version.marshal"
@@ -72,7 +68,7 @@ Definition dispatch_C08 (f : string) (args : list val) : val :=
            r_bytes (create_authenticate fl (zeros 24) (zeros (nt_len fl (lenN ti))) user domain ws)
       else vunknown
   | [VB tok; VB user; VB password; VB domain; VB ws] =>
-      if f =? "spnego.process_challenge" then r_bytes (process_challenge_token tok user domain ws)
+      if f =? "spnego.process_challenge" then r_bytes (process_challenge_zero tok user domain ws)
       else vunknown
   | _ => vunknown
   end.
